@@ -3,6 +3,7 @@ package gedcom
 import (
 	"fmt"
 	"strings"
+	"sync"
 	"time"
 )
 
@@ -13,6 +14,10 @@ type IndividualNode struct {
 	families                      FamilyNodes
 	spouses                       []*IndividualNode
 	cachedUniqueIDs               *StringSet
+
+	// cacheMutex guards the lazily filled fields above when they are read by
+	// several goroutines at once (see IndividualNodes.Compare).
+	cacheMutex sync.Mutex
 }
 
 // SpouseChildren connects a single spouse to a set of children. The children
@@ -28,7 +33,7 @@ type SpouseChildren map[*IndividualNode]ChildNodes
 func newIndividualNode(document *Document, pointer string, children ...Node) *IndividualNode {
 	return &IndividualNode{
 		newSimpleDocumentNode(document, TagIndividual, "", pointer, children...),
-		false, false, nil, nil, nil,
+		false, false, nil, nil, nil, sync.Mutex{},
 	}
 }
 
@@ -82,6 +87,9 @@ func (node *IndividualNode) Spouses() (spouses IndividualNodes) {
 		return nil
 	}
 
+	node.cacheMutex.Lock()
+	defer node.cacheMutex.Unlock()
+
 	if node.cachedSpouses {
 		return node.spouses
 	}
@@ -122,6 +130,9 @@ func (node *IndividualNode) Families() (families FamilyNodes) {
 	if node == nil {
 		return nil
 	}
+
+	node.cacheMutex.Lock()
+	defer node.cacheMutex.Unlock()
 
 	if node.cachedFamilies {
 		return node.families
@@ -854,18 +865,24 @@ func (node *IndividualNode) UniqueIDs() (nodes []*UniqueIDNode) {
 // commonly unique identifiers such as the FamilySearch ID or UUID generated by
 // some applications.
 func (node *IndividualNode) UniqueIdentifiers() *StringSet {
+	node.cacheMutex.Lock()
+	defer node.cacheMutex.Unlock()
+
 	if node.cachedUniqueIDs == nil {
-		node.cachedUniqueIDs = NewStringSet()
+		// The set is only published once it is complete.
+		uniqueIDs := NewStringSet()
 
 		for _, id := range node.UniqueIDs() {
 			if uuid, err := id.UUID(); err == nil {
-				node.cachedUniqueIDs.Add(uuid.String())
+				uniqueIDs.Add(uuid.String())
 			}
 		}
 
 		for _, id := range node.FamilySearchIDs() {
-			node.cachedUniqueIDs.Add(id.String())
+			uniqueIDs.Add(id.String())
 		}
+
+		node.cachedUniqueIDs = uniqueIDs
 	}
 
 	return node.cachedUniqueIDs
